@@ -340,6 +340,16 @@ def run(ctx):
             mv = [a for k, a in prog.adts.items() if k.endswith("myc::Value") or k.endswith("value::Value")]
             delegs = [(pos, blk, t) for pos, blk, t in p.calls() if re.search(r"^<(\w+) as value::encode::ToMysqlValue>::to_mysql_bin$", cname(t["func"]))]
             if not delegs:
+                # a path of this variant's arm that does not hand the number to one of the integer encoders must refuse it:
+                # any other treatment (re-wrapping it in another variant, writing it here, a cast and a different encoder) is
+                # outside what is proved
+                vn = {int(v_["discr"]): v_["name"] for a_ in mv for v_ in a_["variants"]}
+                in_arm = took is not None and {vn.get(int(x)) for x in took} == {variant}
+                if in_arm:
+                    other = [cname(t["func"]) for pos, blk, t in p.calls() if re.search(r"ToMysqlValue>?::to_mysql_bin$", cname(t["func"])) or wire.RX_BYTEORDER.match(t["func"]["path"])]
+                    okr = classify_return(p) == "err" and not other
+                    ctx.ob("C15.exact-or-refused", okr, "generic %s: a path neither refuses the value nor delegates it to an integer encoder (calls %s, returns %s)" % (variant, [o.split("::")[-1] for o in other][:3], classify_return(p)),
+                           fn=gv.path, construct="generic-unmodelled", callee=variant, where=gv.where(p.blocks[-1]), nontrivial=False)
                 continue
             pos, blk, t = delegs[0]
             val = p.arg(pos, 0)
@@ -401,3 +411,8 @@ def run(ctx):
                    fn=gv.path, construct="generic-narrowing", callee="%s->%s" % (variant, tgt), where=gv.where(blk),
                    sample={"rule": "exact-or-refused/generic", "variant": variant, "narrowed_to": tgt, "interval": [lo, hi]})
     ctx.floor("C15.exact-or-refused", "generic Int/UInt delegation paths", n_int, 8)
+
+    # the client decodes by the advertised column type and flags: they must be the declared ones (C09's definition layout)
+    import rules.C09 as C09
+    C09.run(ctx)
+
